@@ -47,6 +47,8 @@ def gen_cases(tier, seed):
         c["kind"] = "nn"
         c["gother"] = bool(c["n"] % 2)
         c["mixed"] = bool(c["n"] % 5 == 4)
+        if c["op"] == "batch_norm" and c["n"] % 3 == 0:
+            c["a"] = dict(c["a"], vclass="offset")          # |mean| >> std: float32 must still agree with float64 to single precision
         cases.append(c)
     for k in range(24 if tier == "quick" else 400):
         cases.append({"kind": "stateful", "dtype": ["float32", "float64"][k % 2], "rank": [2, 3, 4][k % 3], "momentum": [0.1, None, 0.5][(k // 2) % 3],
@@ -238,7 +240,17 @@ def run_nn(ns, mon, case):
                         yabs = np.abs(y64)
                 except Exception:
                     yabs = np.abs(y64)
-                b = bound32(y64, yabs, opmax, max(x.size for x in xs)) * (8 if op.name == "batch_norm" else 1)
+                if op.name == "batch_norm":
+                    # condition scale of (x - mean)/sigma: rounding of x (relative eps) is amplified by |x|/sigma
+                    x0 = xs32[0]
+                    axes = tuple(i for i in range(x0.ndim) if i != 1)
+                    use_batch = a["training"] or not a["track"]
+                    sigma = np.sqrt(np.var(x0, axis=axes) + a["eps"]) if use_batch else np.sqrt(np.abs(xs32[-1]) + a["eps"])
+                    amp = float(np.max(np.abs(x0))) / float(np.min(sigma))
+                    gmax = float(np.max(np.abs(xs32[1]))) if a["affine"] else 1.0
+                    b = (64 + 8 * math.log2(max(2, x0.size))) * np.finfo(np.float32).eps * (amp * max(1.0, gmax) + np.abs(y64)) * 4
+                else:
+                    b = bound32(y64, yabs, opmax, max(x.size for x in xs))
                 d = np.abs(y32.astype(np.float64) - y64)
                 with np.errstate(invalid="ignore"):
                     bad = ~(d <= b) & ~(y32.astype(np.float64) == y64)
@@ -292,6 +304,28 @@ def run_stateful(ns, mon, case):
     y.sum().backward()
     if x._grad is not None and (x._grad.dtype != dt or x._grad.shape != x.shape):
         viol.append(V("batch_norm-history:input-grad-dtype", f"input grad {x._grad.dtype}/{x._grad.shape} for {dt} input in eval"))
+    # gradient buffers created by the three reset paths keep the parameter's dtype
+    for path in ("optimizer", "module", "tensor"):
+        lin = nn.Linear(3, 2)
+        for p_ in lin.parameters():
+            p_.data = p_.data.astype(dt)
+        opt = ns.optim.SGD(lin.parameters(), lr=0.1, momentum=0.5)
+        for it in range(2):
+            if path == "optimizer":
+                opt.zero_grad()
+            elif path == "module":
+                lin.zero_grad()
+            else:
+                for p_ in lin.parameters():
+                    p_.zero_()
+            out = lin(T(rng.standard_normal((4, 3)).astype(dt)))
+            out.sum().backward()
+            counters["operand_grad_checks"] = counters.get("operand_grad_checks", 0) + 1
+            for p_ in lin.parameters():
+                if p_._grad is None or p_._grad.dtype != dt or p_.data.dtype != dt:
+                    viol.append(V(f"reset-path:{path}:grad-dtype", f"after zeroing via the {path} and a backward, a {dt} parameter has grad dtype "
+                                  f"{None if p_._grad is None else p_._grad.dtype} / data dtype {p_.data.dtype}", iteration=it))
+            opt.step()
     d = nn.Dropout(0.3); d.train()
     yd = d(T(rng.standard_normal(shp).astype(dt)))
     if yd.dtype != dt:
